@@ -39,6 +39,10 @@ def calls(rng):
     pool.append(('xta-error', lambda j: j.model('xta', 'int i; clock x;\nprocess P() { state A; init A; trans A -> Z { guard j == 0; }; }\nsystem P;\n').dump('errors')))
     pool.append(('xta-old', lambda j: j.model('xta', 'int i; clock x;\nprocess P { state A, B; init A; trans A -> B { guard i == 0, x >= 1; assign i := 1; }; }\nsystem P;\n').dump('errors').dump('doc')))
     pool.append(('xta-array-abort', lambda j: j.model('xta', 'int a[2][int[0,1]][ ;\nprocess P() { state A; init A; }\nsystem P;\n').dump('errors')))
+    # ... and one that ends at the end of input inside the declarator: bison aborts without recovery, the counter of open type-indexed dimensions stays where it was
+    pool.append(('xta-array-abort-eof', lambda j: j.model('xta', 'int a[int[0,3]][int[0,1]][').dump('errors')))
+    xml('xml-array-abort-eof', g='int i; clock x; int a[int[0,3]][int[0,1]][int[0,2]][')
+    pool.append(('xta-transition-abort-eof', lambda j: j.model('xta', 'int i;\nprocess P() { state LongSourceName, B; init LongSourceName; trans LongSourceName -> B { guard i == 0; }, -> ').dump('errors')))
     # literals outside the range of their type leave errno (ERANGE) behind in the C library: process-global state a later call must not read
     xml('xml-huge-double', g='int i; clock x; double d = 1e999;')
     xml('xml-huge-int', g='int i; clock x; int k = 99999999999999999999;')
